@@ -52,6 +52,14 @@ EDITS = [
     ("merge matcher: comparison operands exchanged (a < b as b > a)", "panoptica/instance_matcher.py",
      [("                    new_score < score_ref[ref_label]\n                    if self._matching_metric.decreasing\n                    else new_score > score_ref[ref_label]",
        "                    score_ref[ref_label] > new_score\n                    if self._matching_metric.decreasing\n                    else score_ref[ref_label] < new_score")], ["C14"]),
+    ("scorer: pool closed explicitly in try/finally instead of a with block", "panoptica/_functionals.py",
+     [("    with Pool() as pool:\n        mm_values = pool.starmap(matching_metric.value, instance_pairs)\n", "    pool = Pool()\n    try:\n        mm_values = pool.starmap(matching_metric.value, instance_pairs)\n    finally:\n        pool.close()\n        pool.join()\n")], ["C03", "C16", "C14"]),
+    ("aggregator: exit handler registered through a small wrapper function", "panoptica/panoptica_aggregator.py",
+     [("        atexit.register(self.__exist_handler)\n", "        handler = self.__exist_handler\n        atexit.register(handler)\n")], ["C16", "C17"]),
+    ("merge matcher: score table renamed and created with dict()", "panoptica/instance_matcher.py",
+     [("score_ref", "best_score_of_ref")], ["C14", "C16"]),
+    ("label group: labels de-duplicated through dict.fromkeys before sorting", "panoptica/utils/label_group.py",
+     [("        value_labels = sorted(set(value_labels))", "        value_labels = sorted(dict.fromkeys(value_labels))")], ["C12", "C19"]),
     ("matcher: dead assignment removed and comprehension without list()", "panoptica/instance_matcher.py",
      [("    ref_matched_labels = []\n    label_counter", "    label_counter"),
       ("    ref_matched_labels = list([r for r in ref_labels if r in pred_labelmap.values()])", "    ref_matched_labels = [r for r in ref_labels if r in pred_labelmap.values()]")], ["C04"]),
